@@ -327,6 +327,8 @@ class AbstractHasAxes(AbstractHasMetadata):
 
             if not np.isscalar(ix) and not isinstance(ix, slice):
                 ix = np.asarray(ix)
+                if ix.size == 0 and ix.dtype.kind != 'b':
+                    ix = ix.astype(int) # an empty list is a float array for numpy: invalid as index
 
             # boolean indices are fine
             if isinstance(ix, np.ndarray) and ix.dtype.kind == 'b':
